@@ -467,13 +467,13 @@ Definition sched_lost : list tstep :=
    TRa;                       (* runAsync reaches its select *)
    TApp 0;                    (* enqueueSignal rendezvous *)
    TRa; TRa; TRa; TRa;        (* Pause, TickLater, Continue, test+spawn *)
-   TEngStart; TEng; TEng; TEng; TEng; TEng;  (* acquire, noMoreEvent=false, lock, pop tick, sendToGPUs, processReturnReq *)
+   TEngStart; TEng; TEng; TEng; TEng; TEng; TEng;  (* acquire, noMoreEvent=false, lock, pop tick, sendToGPUs, completeEmptyCopies, processReturnReq *)
    TApp 0;                    (* waiter: NumCommand() = 1 *)
    TEng;                      (* Dequeue removes the command *)
    TEng;                      (* ... and notifies: nobody is receiving -> default *)
    TApp 0                     (* waiter: <-signal blocks *)
   ]
-  ++ [TEng; TEng; TEng; TEng; TEng; TEng; TEng; TEng; TEng; TEng; TEng]  (* next tick finds nothing; Run returns; exit *)
+  ++ [TEng; TEng; TEng; TEng; TEng; TEng; TEng; TEng; TEng; TEng; TEng; TEng]  (* next tick finds nothing; Run returns; exit *)
   ++ [TRa].
 
 (** (2) engine-exit race: Run has returned, engineRunning is still true while
@@ -482,9 +482,9 @@ Definition prog_exit : list (list op) :=
   [[OEnq 0 (noop 1); ODrain 0; OEnq 0 (noop 2); ODrain 0]].
 Definition sched_exit : list tstep :=
   [TApp 0; TApp 0; TApp 0; TRa; TApp 0; TRa; TRa; TRa; TRa;
-   TEngStart; TEng; TEng; TEng; TEng; TEng; TEng; TEng;    (* ... Dequeue + notify *)
+   TEngStart; TEng; TEng; TEng; TEng; TEng; TEng; TEng; TEng;    (* ... Dequeue + notify *)
    TApp 0; TApp 0; TApp 0;                                 (* check = 0, close, unsubscribe: first Drain returned *)
-   TEng; TEng; TEng; TEng; TEng; TEng; TEng; TEng; TEng;   (* second tick: nothing; noMoreEvent -> Run returns *)
+   TEng; TEng; TEng; TEng; TEng; TEng; TEng; TEng; TEng; TEng;   (* second tick: nothing; noMoreEvent -> Run returns *)
    TRa;                                                    (* runAsync back in select *)
    TApp 0; TApp 0; TApp 0; TApp 0;                         (* Enqueue; subscribe; signal *)
    TRa; TRa; TRa; TRa;                                     (* tick scheduled; engineRunning still true -> continue *)
